@@ -91,6 +91,9 @@ pub struct Case {
     /// (step, schedule point, resume after j further steps) is executed
     #[serde(default, skip_serializing_if = "Option::is_none")]
     pub sweep: Option<u8>,
+    /// C04 "times out" clause: a virtual-clock case run by the tsim engine's interpreter
+    #[serde(default, skip_serializing_if = "Option::is_none")]
+    pub timed: Option<tsim::Case>,
 }
 
 /// Quiescent prefix state for the crash-point matrix.
